@@ -111,13 +111,10 @@ def check_iadd(P, R, clsname, fields, rule="FIELDS.iadd"):
             R.violation(rule + "-own", f.key, src(st), f"`+=` writes into its right operand {other}", st.lineno)
 
 
-def check_shape_guard(P, R, clsname, meth, shape_fields, fields, rule="GUARD.refuse"):
-    """A raising shape comparison that tests every shape field dominates every field access."""
-    f = P.func(f"{P.cls(clsname).module.name}:{clsname}.{meth}")
-    du = get_defuse(f, P)
-    me, other = f.posparams[0], f.posparams[1]
-    guards = []
-    for n in du.cfg.nodes():
+def _raising_shape_tests(cfg_nodes, me, other, shape_fields):
+    """[(If node, set of shape fields compared)] for `if <me.f != other.f or ...>: raise`."""
+    out = []
+    for n in cfg_nodes:
         if isinstance(n, ast.If) and n.body and isinstance(n.body[-1], ast.Raise):
             t = n.test
             ok_fields = set()
@@ -130,7 +127,39 @@ def check_shape_guard(P, R, clsname, meth, shape_fields, fields, rule="GUARD.ref
             # the comparisons must be OR-ed (any mismatch refuses)
             ored = not isinstance(t, ast.BoolOp) or isinstance(t.op, ast.Or)
             if ok_fields and ored:
-                guards.append((n, ok_fields))
+                out.append((n, ok_fields))
+    return out
+
+
+def check_shape_guard(P, R, clsname, meth, shape_fields, fields, rule="GUARD.refuse"):
+    """A raising shape comparison that tests every shape field dominates every field access.  The comparison may live in
+    a helper method called as a statement (`self._check_same_shape(other)`): the call statement is then the guard."""
+    f = P.func(f"{P.cls(clsname).module.name}:{clsname}.{meth}")
+    du = get_defuse(f, P)
+    me, other = f.posparams[0], f.posparams[1]
+    guards = _raising_shape_tests(du.cfg.nodes(), me, other, shape_fields)
+    for n in du.cfg.nodes():
+        if isinstance(n, ast.Expr) and isinstance(n.value, ast.Call):
+            c = n.value
+            tg = [t[1] for t in P.resolve_callee(c.func, f) if t[0] == "repo"]
+            if not tg:
+                continue
+            callee = tg[0]
+            bound = P.bind_args(callee, c.args, c.keywords)
+            cme = callee.self_name if isinstance(c.func, ast.Attribute) and isinstance(c.func.value, ast.Name) and c.func.value.id == me else None
+            cother = next((p_ for p_, a_ in bound.items() if isinstance(a_, ast.Name) and a_.id == other), None)
+            if cme is None:
+                cme = next((p_ for p_, a_ in bound.items() if isinstance(a_, ast.Name) and a_.id == me), None)
+            if cme is None or cother is None:
+                continue
+            cdu = get_defuse(callee, P)
+            inner = _raising_shape_tests(cdu.cfg.nodes(), cme, cother, shape_fields)
+            # the helper must reach its raising test on every path (the test dominates the helper's exit)
+            for g_, fs in inner:
+                from ..cfg import EXIT as _EXIT
+
+                if not cdu.cfg.reach_avoiding(ENTRY, _EXIT, {g_}):
+                    guards.append((n, fs))
     covered = set()
     for n, fs in guards:
         covered |= set(shape_fields) if "shape" in fs else fs
@@ -149,7 +178,7 @@ def check_shape_guard(P, R, clsname, meth, shape_fields, fields, rule="GUARD.ref
         touched = set()
         for e in exprs:
             touched |= _fields_mentioned(e, me, fields) | _fields_mentioned(e, other, fields)
-        if not touched:
+        if not touched or any(st is g for g, _ in guards):
             continue
         dom = all(du.cfg.dominates(g, st) and not du.cfg.reach_avoiding(st, g) for g, _ in guards if g is not st)
         R.check(dom, rule + "-dominates", f.key, src(st).split("\n")[0][:80], "after the shape test", "field access not dominated by the shape test (statistics are modified before the refusal)", getattr(st, "lineno", None))
